@@ -333,3 +333,18 @@ def closed_chain(if_stmt):
             cur = cur.orelse[0]
             continue
         return arms, cur.orelse
+
+
+def stmts_of_block(compound):
+    """All statements nested inside a compound statement (excluding itself)."""
+    out = []
+    for field in ("body", "orelse", "finalbody"):
+        for s in getattr(compound, field, []) or []:
+            out.append(s)
+            out.extend(stmts_of_block(s))
+    if isinstance(compound, ast.Try):
+        for h in compound.handlers:
+            for s in h.body:
+                out.append(s)
+                out.extend(stmts_of_block(s))
+    return out
